@@ -3,6 +3,7 @@ package expr
 import (
 	"fmt"
 
+	"github.com/shopspring/decimal"
 	"github.com/verily-src/fhirpath-go/fhirpath/system"
 )
 
@@ -118,6 +119,9 @@ func EvaluateDiv(lhs, rhs system.Any) (system.Any, error) {
 	switch left := lhs.(type) {
 	case system.Integer:
 		if right, ok := rhs.(system.Integer); ok {
+			if right == 0 {
+				return nil, system.ErrDivideByZero
+			}
 			return left.Div(right), nil
 		}
 		if _, ok := rhs.(system.Quantity); ok {
@@ -126,6 +130,9 @@ func EvaluateDiv(lhs, rhs system.Any) (system.Any, error) {
 		return nil, typeMismatch(Div, lhs, rhs)
 	case system.Decimal:
 		if right, ok := rhs.(system.Decimal); ok {
+			if isZeroDecimal(right) {
+				return nil, system.ErrDivideByZero
+			}
 			return left.Div(right), nil
 		}
 		if _, ok := rhs.(system.Quantity); ok {
@@ -144,6 +151,9 @@ func EvaluateFloorDiv(lhs, rhs system.Any) (system.Any, error) {
 	switch left := lhs.(type) {
 	case system.Integer:
 		if right, ok := rhs.(system.Integer); ok {
+			if right == 0 {
+				return nil, system.ErrDivideByZero
+			}
 			return left.FloorDiv(right), nil
 		}
 		if _, ok := rhs.(system.Quantity); ok {
@@ -152,6 +162,9 @@ func EvaluateFloorDiv(lhs, rhs system.Any) (system.Any, error) {
 		return nil, typeMismatch(FloorDiv, lhs, rhs)
 	case system.Decimal:
 		if right, ok := rhs.(system.Decimal); ok {
+			if isZeroDecimal(right) {
+				return nil, system.ErrDivideByZero
+			}
 			return left.FloorDiv(right)
 		}
 		if _, ok := rhs.(system.Quantity); ok {
@@ -170,6 +183,9 @@ func EvaluateMod(lhs, rhs system.Any) (system.Any, error) {
 	switch left := lhs.(type) {
 	case system.Integer:
 		if right, ok := rhs.(system.Integer); ok {
+			if right == 0 {
+				return nil, system.ErrDivideByZero
+			}
 			return left.Mod(right), nil
 		}
 		if _, ok := rhs.(system.Quantity); ok {
@@ -178,6 +194,9 @@ func EvaluateMod(lhs, rhs system.Any) (system.Any, error) {
 		return nil, typeMismatch(Mod, lhs, rhs)
 	case system.Decimal:
 		if right, ok := rhs.(system.Decimal); ok {
+			if isZeroDecimal(right) {
+				return nil, system.ErrDivideByZero
+			}
 			return left.Mod(right), nil
 		}
 		if _, ok := rhs.(system.Quantity); ok {
@@ -189,6 +208,11 @@ func EvaluateMod(lhs, rhs system.Any) (system.Any, error) {
 	default:
 		return nil, typeMismatch(Mod, lhs, rhs)
 	}
+}
+
+// isZeroDecimal reports whether d is numerically zero.
+func isZeroDecimal(d system.Decimal) bool {
+	return decimal.Decimal(d).IsZero()
 }
 
 // typeMismatch generates an unsupported operation error.
